@@ -61,7 +61,7 @@ TOOL = 3
 MODEL_SRC = [
     "a", "'a", "(a b)", "[1 2]", "{a 1}", "#{1}", '"str"', 'f"x{y}"', "(quote x)",
     "`(a ~b ~@c)", ":kw", "#(1 2)", "a.b.c", "(. a b)", "#* x", 'b"x"', "1.5", "#[[br]]",
-    "(f :k v)", "'[a 'b]", "(fn [x] (+ x 1))", "~ @x", "NaN", "(.m o)", "[[[]]]", "{}", "()",
+    "(f :k v)", "'[a 'b]", "(fn [x] (+ x 1))", "~ @x", "Inf", "(.m o)", "[[[]]]", "{}", "()",
     "#[f[a{b}c]f]", "(quote (quote x))", "None", "2+3j", '"it\'s \\"q\\""',
 ]
 MKINDS = ["List", "Tuple", "Set", "Dict", "Expression"]
